@@ -67,6 +67,9 @@ class C10(F.Check):
             libtriples = [t for j, t in enumerate(libtriples) if j % 2 == 0 or t in ((0, 2, 5), (1, 5, 6), (0, 1, 2))]
         for t in libtriples + [t for t in triples if max(t) >= nlib][:nt]:
             lists.append([pool[i] for i in t])
+        # inputs that all share one non-zero origin with non-nested scales (the common unit of the scales is none of them)
+        so = P.SAME_ORIGIN
+        lists += [[P.KILOC, so[0]], [so[1], so[2]], [so[3], so[4]], [P.KILOC, so[0], so[1]], [P.CELSIUS, so[2], so[0]], [P.FAHRENHEIT, so[4]]]
         self.lists = lists
         ks = []
         self.inst = []
